@@ -212,18 +212,35 @@ let xdump (x : xstate) (out : xexn option) : Stdlib.String.t =
   let rest = Stdlib.String.sub d 2 (Stdlib.String.length d - 2) in
   (match out with None -> "ok" | Some e -> tok_of_xexn e) ^ rest
 
+(* ---- cross-check of extraction + this file's glue against vm_compute (harness/coq_eval.py) ----
+   "digest" summarises the history since the last "reset" twice: by the extracted [x_case] on the list
+   of parsed ops (only the op parser is glue), and by this driver's own loop (the states it went through
+   are kept in [trace]; at "digest" their event logs are folded with the extracted [xev_more] and the
+   current state is hashed by the extracted [xstate_digest]; nothing is computed for runs that never ask). *)
+let sn x = string_of_int (int_of_n x)
+let scodes l = if l = [] then "-" else String.concat "," (List.map sn l)
+
 let () =
   let st = ref xinit in
+  let trace = ref [] in
+  let hist = ref [] in
   try
     while true do
       let line = input_line stdin in
-      if String.trim line = "reset" then (st := xinit; print_endline "reset")
+      if String.trim line = "reset" then (st := xinit; trace := []; hist := []; print_endline "reset")
       else if String.trim line = "" then ()
+      else if String.trim line = "digest" then begin
+        let ((outs, h), d) = x_case (List.rev !hist) in
+        let evh = List.fold_left (fun a (s1, out) -> xev_more a s1 out) ev0 (List.rev !trace) in
+        print_endline ("digest " ^ scodes outs ^ " " ^ sn h ^ " " ^ sn d ^ " " ^ sn evh ^ " " ^ sn (xstate_digest !st))
+      end
       else begin
         let o = parse_xop line in
+        hist := o :: !hist;
         let x0 = { !st with st = { (!st).st with log = [] } } in
         let (x1, out) = xstep x0 o in
         st := x1;
+        trace := (x1, out) :: !trace;
         print_endline (xdump x1 out)
       end
     done
